@@ -176,7 +176,18 @@ class Quantity:
         return Quantity(self.magnitude.value[key], self.baseunits)
         
     def __array_ufunc__(self, ufunc, method, *inputs, **kwargs):
-        if ufunc==np.sqrt:
+        if method=='__call__' and len(inputs)==2 and ufunc in (np.add, np.subtract, np.multiply, np.true_divide):
+            # binary arithmetics started by a NumPy number or array on the left side (e.g. np.array([1,2])*quantity)
+            left, right = [i if isinstance(i, Quantity) else Quantity(i) for i in inputs]
+            if ufunc==np.add:
+                return self._add(left, right)
+            elif ufunc==np.subtract:
+                return self._sub(left, right)
+            elif ufunc==np.multiply:
+                return self._mul(left, right)
+            else:
+                return self._truediv(left, right)
+        elif ufunc==np.sqrt:
             return Quantity(ufunc(inputs[0].magnitude.value), inputs[0].baseunits/2)
         elif ufunc==np.cbrt:
             return Quantity(ufunc(inputs[0].magnitude.value), inputs[0].baseunits/3)
